@@ -1,0 +1,368 @@
+//go:build verif
+
+// Machine-checked contracts for package state (comment-only; compiled only
+// with the build tag "verif"). Read by /verif/vcgen.
+
+package state
+
+//@ package state
+
+// ---------------------------------------------------------------------------
+// C14, snapshot half: everything handed out is a fresh copy.
+
+//@ func (*NickMode).Copy
+//@   property C14
+//@   safety C14
+//@   attr frame=checked
+//@   modifies result.Bot, result.Invisible, result.Oper, result.WallOps, result.HiddenHost, result.SSL
+//@   ensures nm == nil <==> result == nil
+//@   ensures nm != nil ==> fresh(result) && result != nm && result.Bot == nm.Bot && result.Invisible == nm.Invisible
+//@        && result.Oper == nm.Oper && result.WallOps == nm.WallOps && result.HiddenHost == nm.HiddenHost && result.SSL == nm.SSL
+//@ end
+
+//@ func (*ChanPrivs).Copy
+//@   property C14
+//@   safety C14
+//@   attr frame=checked
+//@   modifies result.Owner, result.Admin, result.Op, result.HalfOp, result.Voice
+//@   ensures cp == nil <==> result == nil
+//@   ensures cp != nil ==> fresh(result) && result != cp && result.Owner == cp.Owner && result.Admin == cp.Admin
+//@        && result.Op == cp.Op && result.HalfOp == cp.HalfOp && result.Voice == cp.Voice
+//@ end
+
+//@ func (*ChanMode).Copy
+//@   property C14
+//@   safety C14
+//@   attr frame=checked
+//@   modifies result.Private, result.Secret, result.ProtectedTopic, result.NoExternalMsg, result.Moderated, result.InviteOnly
+//@   modifies result.OperOnly, result.SSLOnly, result.Registered, result.AllSSL, result.Key, result.Limit
+//@   ensures cm == nil <==> result == nil
+//@   ensures cm != nil ==> fresh(result) && result != cm && result.Key == cm.Key && result.Limit == cm.Limit
+//@        && result.Private == cm.Private && result.Secret == cm.Secret && result.ProtectedTopic == cm.ProtectedTopic
+//@        && result.NoExternalMsg == cm.NoExternalMsg && result.Moderated == cm.Moderated && result.InviteOnly == cm.InviteOnly
+//@        && result.OperOnly == cm.OperOnly && result.SSLOnly == cm.SSLOnly && result.Registered == cm.Registered && result.AllSSL == cm.AllSSL
+//@ end
+
+// freshNick(r): r and everything reachable from it (Modes, the Channels map,
+// every ChanPrivs in it) was allocated by the call that returned it.
+//@ pred freshNick(r *Nick) := r != nil && fresh(r) && (r.Modes == nil || fresh(r.Modes)) && r.Channels != nil && fresh(r.Channels)
+//@     && (forall k int :: has(dom(r.Channels), k) ==> vals(r.Channels)[k] == nil || fresh(vals(r.Channels)[k]))
+//@ pred freshChannel(r *Channel) := r != nil && fresh(r) && (r.Modes == nil || fresh(r.Modes)) && r.Nicks != nil && fresh(r.Nicks)
+//@     && (forall k int :: has(dom(r.Nicks), k) ==> vals(r.Nicks)[k] == nil || fresh(vals(r.Nicks)[k]))
+
+// nick.Nick(): a new Nick whose Modes, Channels map and every ChanPrivs in it
+// were allocated by this call; nothing that existed before is written.
+// (The keys of nk.chans / ch.nicks are dereferenced for their names; that they
+// are non-nil is part of C12's representation invariant and assumed here.)
+//@ pred nickOK(nk *nick) := nk != nil
+//@ func (*nick).Nick
+//@   property C14
+//@   attr frame=checked
+//@   requires nickOK(nk)
+//@   modifies result.Nick, result.Ident, result.Host, result.Name, result.Modes, result.Channels, entries(result.Channels)
+//@   modifies NickMode.Bot, NickMode.Invisible, NickMode.Oper, NickMode.WallOps, NickMode.HiddenHost, NickMode.SSL
+//@   modifies ChanPrivs.Owner, ChanPrivs.Admin, ChanPrivs.Op, ChanPrivs.HalfOp, ChanPrivs.Voice
+//@   ensures freshNick(result)
+//@   ensures result != nil && fresh(result) && result.Nick == nk.nick && result.Ident == nk.ident && result.Host == nk.host && result.Name == nk.name
+//@   ensures (nk.modes == nil ==> result.Modes == nil) && (nk.modes != nil ==> fresh(result.Modes))
+//@   ensures result.Channels != nil && fresh(result.Channels)
+//@   ensures forall k int :: has(dom(result.Channels), k) ==> vals(result.Channels)[k] == nil || fresh(vals(result.Channels)[k])
+//@   ensures forall m *NickMode :: !fresh(m) ==> m.Bot == old(m.Bot) && m.Invisible == old(m.Invisible) && m.Oper == old(m.Oper) && m.WallOps == old(m.WallOps) && m.HiddenHost == old(m.HiddenHost) && m.SSL == old(m.SSL)
+//@   ensures forall p *ChanPrivs :: !fresh(p) ==> p.Owner == old(p.Owner) && p.Admin == old(p.Admin) && p.Op == old(p.Op) && p.HalfOp == old(p.HalfOp) && p.Voice == old(p.Voice)
+//@   loop 0:
+//@     invariant n != nil && fresh(n) && n.Channels != nil && fresh(n.Channels) && nickOK(nk)
+//@     invariant n.Nick == nk.nick && n.Ident == nk.ident && n.Host == nk.host && n.Name == nk.name
+//@     invariant (nk.modes == nil ==> n.Modes == nil) && (nk.modes != nil ==> fresh(n.Modes))
+//@     invariant forall k int :: has(dom(n.Channels), k) ==> vals(n.Channels)[k] == nil || fresh(vals(n.Channels)[k])
+//@     invariant forall m map[string]*ChanPrivs :: m != n.Channels ==> dom(m) === preloop(dom(m)) && vals(m) === preloop(vals(m))
+//@     invariant forall m *NickMode :: !fresh(m) ==> m.Bot == old(m.Bot) && m.Invisible == old(m.Invisible) && m.Oper == old(m.Oper) && m.WallOps == old(m.WallOps) && m.HiddenHost == old(m.HiddenHost) && m.SSL == old(m.SSL)
+//@     invariant forall p *ChanPrivs :: !fresh(p) ==> p.Owner == old(p.Owner) && p.Admin == old(p.Admin) && p.Op == old(p.Op) && p.HalfOp == old(p.HalfOp) && p.Voice == old(p.Voice)
+//@ end
+
+//@ pred chanOK(ch *channel) := ch != nil
+//@ func (*channel).Channel
+//@   property C14
+//@   attr frame=checked
+//@   requires chanOK(ch)
+//@   modifies result.Name, result.Topic, result.Modes, result.Nicks, entries(result.Nicks)
+//@   modifies ChanMode.Private, ChanMode.Secret, ChanMode.ProtectedTopic, ChanMode.NoExternalMsg, ChanMode.Moderated, ChanMode.InviteOnly
+//@   modifies ChanMode.OperOnly, ChanMode.SSLOnly, ChanMode.Registered, ChanMode.AllSSL, ChanMode.Key, ChanMode.Limit
+//@   modifies ChanPrivs.Owner, ChanPrivs.Admin, ChanPrivs.Op, ChanPrivs.HalfOp, ChanPrivs.Voice
+//@   ensures freshChannel(result) && result.Name == ch.name && result.Topic == ch.topic
+//@   ensures forall p *ChanPrivs :: !fresh(p) ==> p.Owner == old(p.Owner) && p.Admin == old(p.Admin) && p.Op == old(p.Op) && p.HalfOp == old(p.HalfOp) && p.Voice == old(p.Voice)
+//@   ensures forall m *ChanMode :: !fresh(m) ==> m.Key == old(m.Key) && m.Limit == old(m.Limit) && m.Private == old(m.Private) && m.Secret == old(m.Secret)
+//@        && m.ProtectedTopic == old(m.ProtectedTopic) && m.NoExternalMsg == old(m.NoExternalMsg) && m.Moderated == old(m.Moderated) && m.InviteOnly == old(m.InviteOnly)
+//@        && m.OperOnly == old(m.OperOnly) && m.SSLOnly == old(m.SSLOnly) && m.Registered == old(m.Registered) && m.AllSSL == old(m.AllSSL)
+//@   loop 0:
+//@     invariant c != nil && fresh(c) && c.Nicks != nil && fresh(c.Nicks) && chanOK(ch) && (c.Modes == nil || fresh(c.Modes))
+//@     invariant c.Name == ch.name && c.Topic == ch.topic
+//@     invariant forall k int :: has(dom(c.Nicks), k) ==> vals(c.Nicks)[k] == nil || fresh(vals(c.Nicks)[k])
+//@     invariant forall m map[string]*ChanPrivs :: m != c.Nicks ==> dom(m) === preloop(dom(m)) && vals(m) === preloop(vals(m))
+//@     invariant forall p *ChanPrivs :: !fresh(p) ==> p.Owner == old(p.Owner) && p.Admin == old(p.Admin) && p.Op == old(p.Op) && p.HalfOp == old(p.HalfOp) && p.Voice == old(p.Voice)
+//@     invariant forall m *ChanMode :: !fresh(m) ==> m.Key == old(m.Key) && m.Limit == old(m.Limit) && m.Private == old(m.Private) && m.Secret == old(m.Secret)
+//@        && m.ProtectedTopic == old(m.ProtectedTopic) && m.NoExternalMsg == old(m.NoExternalMsg) && m.Moderated == old(m.Moderated) && m.InviteOnly == old(m.InviteOnly)
+//@        && m.OperOnly == old(m.OperOnly) && m.SSLOnly == old(m.SSLOnly) && m.Registered == old(m.Registered) && m.AllSSL == old(m.AllSSL)
+//@ end
+
+//@ func (*nick).isOn
+//@   property C14
+//@   safety C14
+//@   requires nk != nil
+//@   modifies ChanPrivs.Owner, ChanPrivs.Admin, ChanPrivs.Op, ChanPrivs.HalfOp, ChanPrivs.Voice
+//@   ensures result0 == nil || fresh(result0)
+//@   ensures result1 <==> has(nk.chans, ch)
+//@   ensures forall p *ChanPrivs :: !fresh(p) ==> p.Owner == old(p.Owner) && p.Admin == old(p.Admin) && p.Op == old(p.Op) && p.HalfOp == old(p.HalfOp) && p.Voice == old(p.Voice)
+//@ end
+
+//@ func (*channel).isOn
+//@   property C14
+//@   safety C14
+//@   requires ch != nil
+//@   modifies ChanPrivs.Owner, ChanPrivs.Admin, ChanPrivs.Op, ChanPrivs.HalfOp, ChanPrivs.Voice
+//@   ensures result0 == nil || fresh(result0)
+//@   ensures result1 <==> has(ch.nicks, nk)
+//@   ensures forall p *ChanPrivs :: !fresh(p) ==> p.Owner == old(p.Owner) && p.Admin == old(p.Admin) && p.Op == old(p.Op) && p.HalfOp == old(p.HalfOp) && p.Voice == old(p.Voice)
+//@ end
+
+// ---------------------------------------------------------------------------
+// helpers on nick / channel (used under the tracker's mutex)
+
+//@ func newNick
+//@   property C14, C12
+//@   safety C12
+//@   ensures result != nil && fresh(result) && nickOK(result) && result.nick == n && result.modes != nil && fresh(result.modes)
+//@   ensures result.chans != nil && fresh(result.chans) && result.lookup != nil && fresh(result.lookup) && dom(result.chans) === emptyset() && dom(result.lookup) === emptyset()
+//@ end
+
+//@ func newChannel
+//@   property C14, C12
+//@   safety C12
+//@   ensures result != nil && fresh(result) && chanOK(result) && result.name == name && result.modes != nil && fresh(result.modes)
+//@   ensures result.nicks != nil && fresh(result.nicks) && result.lookup != nil && fresh(result.lookup) && dom(result.nicks) === emptyset() && dom(result.lookup) === emptyset()
+//@ end
+
+//@ func (*nick).addChannel
+//@   property C12
+//@   safety C12
+//@   requires nk != nil && nk.chans != nil && nk.lookup != nil && ch != nil
+//@   modifies entries(nk.chans), entries(nk.lookup), $log
+//@   ensures !old(has(nk.chans, ch)) ==> dom(nk.chans) === setadd(old(dom(nk.chans)), ch) && nk.chans[ch] == cp
+//@        && dom(nk.lookup) === setadd(old(dom(nk.lookup)), ch.name) && nk.lookup[ch.name] == ch
+//@   ensures old(has(nk.chans, ch)) ==> dom(nk.chans) === old(dom(nk.chans)) && vals(nk.chans) === old(vals(nk.chans))
+//@        && dom(nk.lookup) === old(dom(nk.lookup)) && vals(nk.lookup) === old(vals(nk.lookup))
+//@   ensures forall c *channel :: c != ch && has(nk.chans, c) ==> nk.chans[c] == old(nk.chans[c])
+//@ end
+
+//@ func (*nick).delChannel
+//@   property C12
+//@   safety C12
+//@   requires nk != nil && ch != nil && nk.chans != nil && nk.lookup != nil
+//@   modifies entries(nk.chans), entries(nk.lookup), $log
+//@   ensures old(has(nk.chans, ch)) ==> dom(nk.chans) === upd(old(dom(nk.chans)), ch, false) && dom(nk.lookup) === upd(old(dom(nk.lookup)), ch.name, false)
+//@   ensures !old(has(nk.chans, ch)) ==> dom(nk.chans) === old(dom(nk.chans)) && dom(nk.lookup) === old(dom(nk.lookup))
+//@   ensures vals(nk.chans) === old(vals(nk.chans)) && vals(nk.lookup) === old(vals(nk.lookup))
+//@ end
+
+//@ func (*channel).addNick
+//@   property C12
+//@   safety C12
+//@   requires ch != nil && ch.nicks != nil && ch.lookup != nil && nk != nil
+//@   modifies entries(ch.nicks), entries(ch.lookup), $log
+//@   ensures !old(has(ch.nicks, nk)) ==> dom(ch.nicks) === setadd(old(dom(ch.nicks)), nk) && ch.nicks[nk] == cp
+//@        && dom(ch.lookup) === setadd(old(dom(ch.lookup)), nk.nick) && ch.lookup[nk.nick] == nk
+//@   ensures old(has(ch.nicks, nk)) ==> dom(ch.nicks) === old(dom(ch.nicks)) && vals(ch.nicks) === old(vals(ch.nicks))
+//@        && dom(ch.lookup) === old(dom(ch.lookup)) && vals(ch.lookup) === old(vals(ch.lookup))
+//@   ensures forall n *nick :: n != nk && has(ch.nicks, n) ==> ch.nicks[n] == old(ch.nicks[n])
+//@ end
+
+//@ func (*channel).delNick
+//@   property C12
+//@   safety C12
+//@   requires ch != nil && nk != nil && ch.nicks != nil && ch.lookup != nil
+//@   modifies entries(ch.nicks), entries(ch.lookup), $log
+//@   ensures old(has(ch.nicks, nk)) ==> dom(ch.nicks) === upd(old(dom(ch.nicks)), nk, false) && dom(ch.lookup) === upd(old(dom(ch.lookup)), nk.nick, false)
+//@   ensures !old(has(ch.nicks, nk)) ==> dom(ch.nicks) === old(dom(ch.nicks)) && dom(ch.lookup) === old(dom(ch.lookup))
+//@   ensures vals(ch.nicks) === old(vals(ch.nicks)) && vals(ch.lookup) === old(vals(ch.lookup))
+//@ end
+
+// ---------------------------------------------------------------------------
+// C14, sharing half: every exported method takes st.mu before touching any
+// tracker field and releases it (deferred) on every path; what it returns is
+// a fresh snapshot. With A1 each method body is one atomic step.
+
+//@ guarded_by stateTracker.chans self.mu
+//@ guarded_by stateTracker.nicks self.mu
+//@ guarded_by stateTracker.me self.mu
+
+// Shape invariant of the tracker (part of C12's representation invariant).
+//@ pred trkOK(st *stateTracker) := st != nil && st.chans != nil && st.nicks != nil && nickOK(st.me)
+//@     && (forall k int :: has(dom(st.nicks), k) ==> vals(st.nicks)[k] != nil)
+//@     && (forall k int :: has(dom(st.chans), k) ==> vals(st.chans)[k] != nil)
+
+// internal helpers: called with st.mu held
+//@ func (*stateTracker).delNick
+//@   property C14
+//@   attr lockcheck=C14
+//@   requires st != nil && held(st.mu) == 1
+//@   requires [C12] nickOK(nk)
+//@   modifies mapsof("map[string]*nick"), mapsof("map[string]*channel"), mapsof("map[*nick]*ChanPrivs"), mapsof("map[*channel]*ChanPrivs"), $log
+//@   ensures $held === old($held)
+//@   loop 0:
+//@     invariant true
+//@ end
+//@ func (*stateTracker).delChannel
+//@   property C14
+//@   attr lockcheck=C14
+//@   requires st != nil && held(st.mu) == 1
+//@   requires [C12] chanOK(ch)
+//@   modifies mapsof("map[string]*nick"), mapsof("map[string]*channel"), mapsof("map[*nick]*ChanPrivs"), mapsof("map[*channel]*ChanPrivs"), $log
+//@   ensures $held === old($held)
+//@   loop 0:
+//@     invariant true
+//@ end
+//@ func (*nick).parseModes
+//@   property C14
+//@   requires nk != nil
+//@   modifies NickMode.Bot, NickMode.Invisible, NickMode.Oper, NickMode.WallOps, NickMode.HiddenHost, NickMode.SSL, $log
+//@   loop 0:
+//@     invariant true
+//@ end
+//@ func (*channel).parseModes
+//@   property C14
+//@   requires ch != nil
+//@   modifies ChanMode.Private, ChanMode.Secret, ChanMode.ProtectedTopic, ChanMode.NoExternalMsg, ChanMode.Moderated, ChanMode.InviteOnly
+//@   modifies ChanMode.OperOnly, ChanMode.SSLOnly, ChanMode.Registered, ChanMode.AllSSL, ChanMode.Key, ChanMode.Limit
+//@   modifies ChanPrivs.Owner, ChanPrivs.Admin, ChanPrivs.Op, ChanPrivs.HalfOp, ChanPrivs.Voice, $log
+//@   loop 0:
+//@     invariant true
+//@ end
+//@ func (*stateTracker).Wipe
+//@   property C14
+//@   attr lockcheck=C14
+//@   requires trkOK(st) && held(st.mu) == 0
+//@   modifies mapsof("map[string]*nick"), mapsof("map[string]*channel"), mapsof("map[*nick]*ChanPrivs"), mapsof("map[*channel]*ChanPrivs"), nick.nick, nick.ident, nick.host, nick.name, channel.topic, $log, $held, $tr
+//@   ensures $held === old($held)
+//@   loop 0:
+//@     invariant held(st.mu) == 1 && $held === upd(old($held), st.mu, 1)
+//@ end
+//@ func (*stateTracker).NewNick
+//@   property C14
+//@   attr lockcheck=C14
+//@   requires trkOK(st) && held(st.mu) == 0
+//@   modifies mapsof("map[string]*nick"), mapsof("map[string]*channel"), mapsof("map[*nick]*ChanPrivs"), mapsof("map[*channel]*ChanPrivs"), nick.nick, nick.ident, nick.host, nick.name, channel.topic, $log, $held, $tr
+//@   ensures $held === old($held)
+//@   ensures result == nil || freshNick(result)
+//@ end
+//@ func (*stateTracker).GetNick
+//@   property C14
+//@   attr lockcheck=C14
+//@   requires trkOK(st) && held(st.mu) == 0
+//@   modifies mapsof("map[string]*nick"), mapsof("map[string]*channel"), mapsof("map[*nick]*ChanPrivs"), mapsof("map[*channel]*ChanPrivs"), nick.nick, nick.ident, nick.host, nick.name, channel.topic, $log, $held, $tr
+//@   ensures $held === old($held)
+//@   ensures result == nil || freshNick(result)
+//@ end
+//@ func (*stateTracker).ReNick
+//@   property C14
+//@   attr lockcheck=C14
+//@   requires trkOK(st) && held(st.mu) == 0
+//@   modifies mapsof("map[string]*nick"), mapsof("map[string]*channel"), mapsof("map[*nick]*ChanPrivs"), mapsof("map[*channel]*ChanPrivs"), nick.nick, nick.ident, nick.host, nick.name, channel.topic, $log, $held, $tr
+//@   ensures $held === old($held)
+//@   ensures result == nil || freshNick(result)
+//@   loop 0:
+//@     invariant held(st.mu) == 1 && $held === upd(old($held), st.mu, 1)
+//@ end
+//@ func (*stateTracker).DelNick
+//@   property C14
+//@   attr lockcheck=C14
+//@   requires trkOK(st) && held(st.mu) == 0
+//@   modifies mapsof("map[string]*nick"), mapsof("map[string]*channel"), mapsof("map[*nick]*ChanPrivs"), mapsof("map[*channel]*ChanPrivs"), nick.nick, nick.ident, nick.host, nick.name, channel.topic, $log, $held, $tr
+//@   ensures $held === old($held)
+//@   ensures result == nil || freshNick(result)
+//@ end
+//@ func (*stateTracker).NickInfo
+//@   property C14
+//@   attr lockcheck=C14
+//@   requires trkOK(st) && held(st.mu) == 0
+//@   modifies mapsof("map[string]*nick"), mapsof("map[string]*channel"), mapsof("map[*nick]*ChanPrivs"), mapsof("map[*channel]*ChanPrivs"), nick.nick, nick.ident, nick.host, nick.name, channel.topic, $log, $held, $tr
+//@   ensures $held === old($held)
+//@   ensures result == nil || freshNick(result)
+//@ end
+//@ func (*stateTracker).NickModes
+//@   property C14
+//@   attr lockcheck=C14
+//@   requires trkOK(st) && held(st.mu) == 0
+//@   modifies mapsof("map[string]*nick"), mapsof("map[string]*channel"), mapsof("map[*nick]*ChanPrivs"), mapsof("map[*channel]*ChanPrivs"), nick.nick, nick.ident, nick.host, nick.name, channel.topic, $log, $held, $tr
+//@   ensures $held === old($held)
+//@   ensures result == nil || freshNick(result)
+//@ end
+//@ func (*stateTracker).NewChannel
+//@   property C14
+//@   attr lockcheck=C14
+//@   requires trkOK(st) && held(st.mu) == 0
+//@   modifies mapsof("map[string]*nick"), mapsof("map[string]*channel"), mapsof("map[*nick]*ChanPrivs"), mapsof("map[*channel]*ChanPrivs"), nick.nick, nick.ident, nick.host, nick.name, channel.topic, $log, $held, $tr
+//@   ensures $held === old($held)
+//@   ensures result == nil || freshChannel(result)
+//@ end
+//@ func (*stateTracker).GetChannel
+//@   property C14
+//@   attr lockcheck=C14
+//@   requires trkOK(st) && held(st.mu) == 0
+//@   modifies mapsof("map[string]*nick"), mapsof("map[string]*channel"), mapsof("map[*nick]*ChanPrivs"), mapsof("map[*channel]*ChanPrivs"), nick.nick, nick.ident, nick.host, nick.name, channel.topic, $log, $held, $tr
+//@   ensures $held === old($held)
+//@   ensures result == nil || freshChannel(result)
+//@ end
+//@ func (*stateTracker).DelChannel
+//@   property C14
+//@   attr lockcheck=C14
+//@   requires trkOK(st) && held(st.mu) == 0
+//@   modifies mapsof("map[string]*nick"), mapsof("map[string]*channel"), mapsof("map[*nick]*ChanPrivs"), mapsof("map[*channel]*ChanPrivs"), nick.nick, nick.ident, nick.host, nick.name, channel.topic, $log, $held, $tr
+//@   ensures $held === old($held)
+//@   ensures result == nil || freshChannel(result)
+//@ end
+//@ func (*stateTracker).Topic
+//@   property C14
+//@   attr lockcheck=C14
+//@   requires trkOK(st) && held(st.mu) == 0
+//@   modifies mapsof("map[string]*nick"), mapsof("map[string]*channel"), mapsof("map[*nick]*ChanPrivs"), mapsof("map[*channel]*ChanPrivs"), nick.nick, nick.ident, nick.host, nick.name, channel.topic, $log, $held, $tr
+//@   ensures $held === old($held)
+//@   ensures result == nil || freshChannel(result)
+//@ end
+//@ func (*stateTracker).ChannelModes
+//@   property C14
+//@   attr lockcheck=C14
+//@   requires trkOK(st) && held(st.mu) == 0
+//@   modifies mapsof("map[string]*nick"), mapsof("map[string]*channel"), mapsof("map[*nick]*ChanPrivs"), mapsof("map[*channel]*ChanPrivs"), nick.nick, nick.ident, nick.host, nick.name, channel.topic, $log, $held, $tr
+//@   ensures $held === old($held)
+//@   ensures result == nil || freshChannel(result)
+//@ end
+//@ func (*stateTracker).Me
+//@   property C14
+//@   attr lockcheck=C14
+//@   requires trkOK(st) && held(st.mu) == 0
+//@   modifies mapsof("map[string]*nick"), mapsof("map[string]*channel"), mapsof("map[*nick]*ChanPrivs"), mapsof("map[*channel]*ChanPrivs"), nick.nick, nick.ident, nick.host, nick.name, channel.topic, $log, $held, $tr
+//@   ensures $held === old($held)
+//@   ensures result == nil || freshNick(result)
+//@ end
+//@ func (*stateTracker).IsOn
+//@   property C14
+//@   attr lockcheck=C14
+//@   requires trkOK(st) && held(st.mu) == 0
+//@   modifies mapsof("map[string]*nick"), mapsof("map[string]*channel"), mapsof("map[*nick]*ChanPrivs"), mapsof("map[*channel]*ChanPrivs"), nick.nick, nick.ident, nick.host, nick.name, channel.topic, $log, $held, $tr
+//@   ensures $held === old($held)
+//@   ensures result0 == nil || fresh(result0)
+//@ end
+//@ func (*stateTracker).Associate
+//@   property C14
+//@   attr lockcheck=C14
+//@   requires trkOK(st) && held(st.mu) == 0
+//@   modifies mapsof("map[string]*nick"), mapsof("map[string]*channel"), mapsof("map[*nick]*ChanPrivs"), mapsof("map[*channel]*ChanPrivs"), nick.nick, nick.ident, nick.host, nick.name, channel.topic, $log, $held, $tr
+//@   ensures $held === old($held)
+//@   ensures result == nil || fresh(result)
+//@ end
+//@ func (*stateTracker).Dissociate
+//@   property C14
+//@   attr lockcheck=C14
+//@   requires trkOK(st) && held(st.mu) == 0
+//@   modifies mapsof("map[string]*nick"), mapsof("map[string]*channel"), mapsof("map[*nick]*ChanPrivs"), mapsof("map[*channel]*ChanPrivs"), nick.nick, nick.ident, nick.host, nick.name, channel.topic, $log, $held, $tr
+//@   ensures $held === old($held)
+//@ end
